@@ -587,9 +587,56 @@ func c05Scenarios(thorough bool) []*engine.SScenario {
 	return scs
 }
 
+// c05Drivers: "delivered in any order in any connection state" for VALID messages — every order of the messages one
+// peer can send around a write that waits for the application's approval (binding, write, its entity announced as
+// removed and again as added, subscription, disconnect and reconnect, the approval timeout), searched breadth-first
+// over the registry world of C03/C08/C10. Only C05's own oracle is applied here: nothing panics (panics are added to
+// every step by the engine), nothing wedges, and both peers' discovery reads are still answered afterwards. (What the
+// registries have to look like after each step is judged by the checks that own those statements.)
+func c05Drivers(thorough bool) []*engine.HDriver {
+	alpha := []string{"bind:A:e1f1:L1lc:lc:d", "write:A:e1f1:L1lc:limit:ack:2", "entrm:A:1", "entadd:A:1", "unbind:A:e1f1:L1lc:d",
+		"sub:A:e1f1:L1lc:lc:d", "disc:A", "reconn:A", "fire", "write:A:e2f1:L1lc:limit:ack:2", "bind:A:e2f1:L1lc:lc:d"}
+	if thorough {
+		alpha = append(alpha, "entrm:A:2", "write:B:e1f1:L2lc:limit:ack:2", "bind:B:e1f1:L2lc:lc:d", "entrm:B:1", "set:L1lc:2")
+	}
+	var probes []string
+	d := regDriver("valid-messages-in-any-order", alpha, true, true, func(rw *regWorld, op string) []string {
+		// afterwards the stack still answers a valid detailed-discovery read of every connected peer
+		for _, p := range []string{"A", "B"} {
+			pe := rw.w.Peers[p]
+			if pe == nil || rw.w.L.RemoteDeviceForSki(p) == nil {
+				continue
+			}
+			m := rw.w.Mark()
+			pe.Deliver(pe.Datagram(pe.NM(), world.LocalNM(), model.CmdClassifierTypeRead, false, nil, model.CmdType{NodeManagementDetailedDiscoveryData: &model.NodeManagementDetailedDiscoveryDataType{}}))
+			rt.WaitIdle()
+			n := 0
+			for _, o := range rw.w.Since(m) {
+				if o.Conn == pe.W.Name && o.Class == "reply" && o.Cmd.NodeManagementDetailedDiscoveryData != nil {
+					n++
+				}
+			}
+			if n != 1 {
+				probes = append(probes, fmt.Sprintf("the discovery read of peer %s is answered with %d replies afterwards | op=%s", p, n, op))
+			}
+		}
+		return nil
+	})
+	step := d.Step
+	d.Step = func(hist []string, op string) engine.HStep {
+		probes = nil
+		st := step(hist, op)
+		st.Violations = probes // (the registry oracles belong to C03/C08/C09/C10)
+		st.Cut = false
+		return st
+	}
+	return []*engine.HDriver{d}
+}
+
 func init() {
 	engine.Register(&engine.Check{
 		ID:        "C05",
+		Drivers:   func(c *engine.Ctx) []*engine.HDriver { return c05Drivers(c.Thorough) },
 		Families:  func(c *engine.Ctx) []*engine.IFamily { return c05Families(c.Thorough) },
 		NeedsRace: true,
 		Scenarios: func(c *engine.Ctx) []*engine.SScenario { return c05Scenarios(c.Thorough) },
@@ -601,6 +648,14 @@ func init() {
 			rep.Coverage["transitions"] = int(ev)
 			rep.Coverage["traces_validated_against_impl"] = int(ev)
 			rep.Coverage["seeds"] = 22
+			for _, d := range c05Drivers(c.Thorough) {
+				depth := 6
+				if c.Thorough {
+					depth = 8
+				}
+				st := engine.RunHistories(c, d, depth, rep)
+				engine.AddHCoverage(rep, d.Name, st, len(d.Alphabet))
+			}
 			mergeS(c, rep, c05Scenarios(c.Thorough), engine.SPlan{Bounds: boundsFor(c, []int{0, 1}, []int{0, 1, 2}), Race: true, RaceMaxBound: 2, RaceProp: true})
 			rep.Assumptions = []string{"'all byte strings' is not enumerable: the claim covers all inputs within one (thorough: two) field-level deviations of 22 seed messages, all truncations, three connection states; every delivery runs under the controlled scheduler so that panics in goroutines the stack starts are caught and deadlocks are detected without wall-clock time"}
 			return rep
